@@ -51,8 +51,8 @@ ClassReps == {Rep(c) : c \in ClassIds}
 PairAlphabet ==
   {Rep("al"), Rep("dg"), US, HY, SP, Rep("ows"), At("ows", "nl"), Rep("sym"), Rep("hsym"),
    Rep("un"), At("un", "u2"), Rep("nal"), Rep("nx"),
-   W("dollar"), W("sign"), W("unknown"), W("class")}
-  \cup (IF Rich THEN {W("blank"), Rep("cm"), Rep("nd"), W("dict")} ELSE {})
+   W("dollar"), W("sign"), W("unknown"), W("class"), W("blank")}
+  \cup (IF Rich THEN {Rep("cm"), Rep("nd"), W("dict")} ELSE {})
 (* every name of the pair universe is also explored as a name              *)
 NameAlphabet ==
   ClassReps \cup PairAlphabet
